@@ -40,7 +40,12 @@ func genText(t *rapid.T, pool []rune, lo, hi int, label string) string {
 	n := rapid.IntRange(lo, hi).Draw(t, label+"Len")
 	var b strings.Builder
 	for i := 0; i < n; i++ {
-		b.WriteRune(rapid.SampledFrom(pool).Draw(t, label))
+		r := rapid.SampledFrom(pool).Draw(t, label)
+		if r == '测' && rapid.IntRange(0, 3).Draw(t, label+"AnyCJK") == 0 {
+			// any character of the range the documentation calls Chinese (U+4E00..U+9FA5), and its neighbours
+			r = rune(rapid.IntRange(0x4dfe, 0x9fa7).Draw(t, label+"CJK"))
+		}
+		b.WriteRune(r)
 	}
 	return b.String()
 }
@@ -202,6 +207,19 @@ func checkRT(c *RTCase) (msg, skipped string) {
 			}
 		}
 		pieces = valid.ValidNamesSplit(first)
+		// the pieces stay what they are while the splitter is used again (on quoted texts too)
+		kept := make([]string, len(pieces))
+		for i, p := range pieces {
+			kept[i] = string([]byte(p))
+		}
+		_ = valid.ValidNamesSplit("in=('p,q'/r),required,ge=1")
+		_ = valid.ValidNamesSplit(first + ",re='^x,y$'")
+		_ = valid.ValidNamesSplit("required")
+		for i := range pieces {
+			if pieces[i] != kept[i] {
+				err = fmt.Sprintf("piece %d of ValidNamesSplit(%q) was %q and reads %q after later calls of the splitter", i, first, kept[i], pieces[i])
+			}
+		}
 	}); p != nil {
 		return fmt.Sprintf("panic: %v", p), ""
 	}
